@@ -537,6 +537,7 @@ pub fn decode_sgr_items(data: &[u8]) -> Vec<vcore::gen::Item> {
                         3 => Group::Empty,
                         4 => Group::Unknown(unknown[a as usize % unknown.len()]),
                         5 => Group::Ul(a as u16 % 6),
+                        6 if k & 0x80 != 0 => Group::RgbCs { target, cs: (k & 0x40 != 0).then_some((a % 3) as u16), r: a as u16, g: it.next().unwrap_or(0) as u16, b: it.next().unwrap_or(0) as u16 },
                         6 => Group::Idx { target, colon: k & 0x40 != 0, n: a as u16 },
                         _ => Group::Rgb { target, colon: k & 0x40 != 0, r: a as u16, g: it.next().unwrap_or(0) as u16, b: it.next().unwrap_or(0) as u16 },
                     };
